@@ -48,6 +48,7 @@ struct C21 : drv::Harness
 			else if (w < 72) p.ops.push_back(Op("drop", { rng.below(2) }));          // arg: drop right after the previous op (bytes still in flight) or after delivery
 			else if (w < 79) p.ops.push_back(Op("restartA"));
 			else if (w < 86) p.ops.push_back(Op("restartB"));
+			else if (w < 90) p.ops.push_back(Op("refuse", { rng.range(1, 4) }));       // the next reconnect finds the acceptor unreachable for this many connect attempts
 			else p.ops.push_back(Op("silence", { rng.range(1, 2000) }));
 		}
 		return p;
@@ -62,6 +63,7 @@ struct C21 : drv::Harness
 		Side A{"A", "CLI", "SRV", "/simfs/A", true}, B{"B", "SRV", "CLI", "/simfs/B", false};
 		Link link; NetCfg net; net.short_read = p.knob("short_read_pm") / 1000.0; net.short_write = p.knob("short_write_pm") / 1000.0; net.eagain = p.knob("eagain_pm") / 1000.0; net.dribble = p.knob("dribble_pm") / 1000.0; net.lat_ns = lat; net.jitter_ns = lat;
 		uint64_t net_seed = (uint64_t)p.knob("net_seed", 1); int conn_no = 0; int reconnects = 0, drops = 0, restarts = 0; bool expect_down = false;
+		int refuse_next = 0;
 		bool replay_lost = false;   // a fault hit while the answer to a ResendRequest was still in flight
 		size_t smark[2] = { 0, 0 };
 		auto resend_in_progress = [&]() { bool rr = false; int k = 0; for (Side *x : { &A, &B }) { if (x->ses) for (size_t q = smark[k]; q < x->ses->states.size(); ++q) { int st = x->ses->states[q].second; if (st == States::st_resend_request_sent || st == States::st_resend_request_received) rr = true; } ++k; } return rr && link.pending > 0; };
@@ -81,10 +83,17 @@ struct C21 : drv::Harness
 			B.ses->start(B.conn, false);
 			if (!A.ses) A.new_session(hb);
 			smark[0] = A.ses->states.size(); smark[1] = 0;
+			A.impl->refuse_left = refuse_next; refuse_next = 0;
 			A.conn = new ClientConnection(A.sock, addr, *A.ses, (unsigned)hb, pm_thread);
-			A.ses->start(A.conn, false);
+			// ClientConnection::connect() retries login_retries (3) times, sleeping login_retry_interval in between; if it
+			// gives up, start() returns -1 and the application tries again with a new connection object
+			for (int attempt = 0; A.ses->start(A.conn, false) < 0 && attempt < 3; ++attempt)
+			{
+				sim::count("initiator_start_failed_retrying");
+				delete A.conn; A.conn = new ClientConnection(A.sock, addr, *A.ses, (unsigned)hb, pm_thread);
+			}
 			// bounded wait for both sides to be (re-)established: logon + any resend exchange
-			bool ok = sim::settle_until([&]() { return both_continuous() || !A.up() || !B.up(); }, 3000000000ll, 1000000);
+			bool ok = sim::settle_until([&]() { return both_continuous() || !A.up() || !B.up(); }, 3000000000ll, 1000000);   // (connect retries have already slept inside start())
 			return ok && both_continuous();
 		};
 		auto why_down = [&]() -> std::string
@@ -118,6 +127,7 @@ struct C21 : drv::Harness
 				else sim::count("send_skipped_not_established");
 			}
 			else if (op.k == "silence") sim::advance(op.arg(0) * 1000000ll);
+			else if (op.k == "refuse") refuse_next = (int)op.arg(0);
 			else if (op.k == "drop")
 			{
 				if (op.arg(0)) { sim::advance(4 * lat + 1000000); sim::settle(); }
